@@ -91,6 +91,7 @@ def plan(prop, tier, seed):
         add(['hyb2', 'hyb2p', 'ev2', 'evloop', 'tb_ev', 'weak2', 'weakonly', 'grp_out', 'grp_in', 'grp_sib', 'tb2'] + multi,
             K=2 if q else 3, lazies=(True, False))
         add(['multi_shift', 'multi_shift_rev'], K=3, lazies=(True,))
+        add(['ent2hy'], K=2 if q else 3)
         add(['hyb2', 'ev2', 'tb_ev'], K=2 if q else 3, lazies=(True,), extra={'future_outputs': True})
         add(['chain3ev', 'chain3', 'fanin'] if q else three, K=2)
         add(['hyb2', 'ev2', 'tb2'], K=2 if q else 3, until='symnc', caches=(False,))
@@ -100,6 +101,8 @@ def plan(prop, tier, seed):
         add(['tb2', 'tbshift', 'tbloop', 'tb_hy', 'hy_tb', 'hyb2pm', 'hyb2p', 'tb_ev'], K=3, lazies=(True, False))
         add(['hyb2', 'ev2', 'weaktb', 'weakonly', 'weak2', 'grp_sib'] + multi, K=2 if q else 3)
         add(['multi_shift', 'multi_tb'], K=3, lazies=(True,))
+        add(['ent2', 'ent2x', 'ent2hy'], K=2 if q else 3, lazies=(True, False))
+        add(['ent2fan'], K=2)
         add(['tb2', 'tbshift', 'tbloop'], K=3 if q else 4, until=4 if q else 5, lazies=(True, False))
         add(['tbshift_sym', 'tb2', 'tbshift'], K=3, until='symnc', caches=(False,), lazies=(True, False))
         add(['fanin', 'tbchain3', 'fanin_same'] if q else ['fanin', 'fanout', 'tbchain3', 'fanin_same', 'fanin_same2'], K=2)
